@@ -8,7 +8,7 @@ FLIP = {"<": ">", "<=": ">=", ">": "<", ">=": "<=", "==": "==", "!=": "!="}
 NEG = {"<": ">=", "<=": ">", ">": "<=", ">=": "<", "==": "!=", "!=": "=="}
 
 
-def subject_name(f, defs, o, depth=0):
+def subject_name(f, defs, o, depth=0, use_names=True):
     """stable, line-free description of an operand: user variable name, field path, `len(x)`, `ret:callee`, or constant"""
     k = op_const_int(o)
     if k is not None:
@@ -19,21 +19,21 @@ def subject_name(f, defs, o, depth=0):
     flds = [str(e[2]) if e[2] is not None else str(e[1]) for e in p[1:] if isinstance(e, list) and e[0] == "."]
     l = p[0]
     base = None
-    if f.local_name(l):
+    if f.local_name(l) and (use_names or defs.single(l) is None):
         base = f.local_name(l)
     else:
         d = defs.single(l)
         if d and d[2] == "assign" and depth < 12:
             rv = d[3][2]
             if rv[0] == "use":
-                base = subject_name(f, defs, rv[1], depth + 1)
+                base = subject_name(f, defs, rv[1], depth + 1, use_names)
             elif rv[0] == "cast":
-                base = subject_name(f, defs, rv[2], depth + 1)
+                base = subject_name(f, defs, rv[2], depth + 1, use_names)
             elif rv[0] == "ref":
-                base = subject_name(f, defs, ["c", rv[2]], depth + 1)
+                base = subject_name(f, defs, ["c", rv[2]], depth + 1, use_names)
             elif rv[0] == "bin" and rv[1] in ("Add", "Sub", "Mul", "Shl", "Shr", "AddWithOverflow", "SubWithOverflow", "MulWithOverflow", "BitAnd", "Div", "Rem"):
-                a = subject_name(f, defs, rv[2], depth + 1)
-                b = subject_name(f, defs, rv[3], depth + 1)
+                a = subject_name(f, defs, rv[2], depth + 1, use_names)
+                b = subject_name(f, defs, rv[3], depth + 1, use_names)
                 sym = {"Add": "+", "AddWithOverflow": "+", "Sub": "-", "SubWithOverflow": "-", "Mul": "*", "MulWithOverflow": "*",
                        "Shl": "<<", "Shr": ">>", "BitAnd": "&", "Div": "/", "Rem": "%"}[rv[1]]
                 if isinstance(a, int) and isinstance(b, int) and sym in ("+", "-", "*", "<<", ">>", "&") and 0 <= b < 4096:
@@ -45,9 +45,9 @@ def subject_name(f, defs, o, depth=0):
             if c:
                 nm = c["fn"].split("::")[-1]
                 if c["fn"] == TRY_BRANCH and d[3][2]:
-                    base = subject_name(f, defs, d[3][2][0], depth + 1)
+                    base = subject_name(f, defs, d[3][2][0], depth + 1, use_names)
                 elif nm in ("len", "deref", "deref_mut", "clone", "from", "into", "unwrap", "as_ref", "borrow") and d[3][2]:
-                    inner = subject_name(f, defs, d[3][2][0], depth + 1)
+                    inner = subject_name(f, defs, d[3][2][0], depth + 1, use_names)
                     base = ("len(%s)" % inner) if nm == "len" else inner
                 else:
                     base = "ret:" + nm
